@@ -575,7 +575,7 @@ def escape_flow_name(name: str) -> str:
         .replace("-", "_")
     )
     result = re.sub(r"\b\d+\b", lambda match: f"_{match.group()}_", result)
-    # The name must be what the parser registers the flow under: no parameter or
-    # comment markers, no surplus white space
-    result = result.replace("$", "").replace("#", "")
+    # The name must be what the parser registers the flow under: only the characters
+    # of names (no parameter or comment markers, no punctuation), no surplus white space
+    result = re.sub(r"[^\w\s]", "", result)
     return " ".join(result.split())
